@@ -1,7 +1,7 @@
 /-
   C05 — Failures are contained, budgeted by -k, and reflected in the exit status.
 -/
-import N2V.Lemmas.SchedWant
+import N2V.Lemmas.SchedExamples
 import N2V.Model.Run
 namespace N2V.C05
 open N2V N2V.Sched
@@ -48,5 +48,44 @@ theorem failed_blocks_dependents (g : Graph) (s : S) (d f p : Nat)
 theorem failed_is_final_in_want (g : Graph) (s s' : S) (f : Nat) (h : want g s f = .ok () s') (b : Nat)
     (hb : s.st b = .failed) : s'.st b = .failed :=
   ((want_lateEq' g s s' f h).1 b .failed (Or.inr (Or.inr (Or.inr rfl)))).mpr hb
+
+/-! ### Whole invocations, at trace level (see Props/C01 for how these are obtained) -/
+
+/-- **Failures are contained, in every invocation**: once a step has `Failed`, no step that
+    transitively needs one of its outputs is started at any later point of the same `Work` —
+    whatever the environment does and however the invocation ends. -/
+theorem failure_contained {E : Type} {g : Graph} (gok : GraphOK g) (a : Run.Args) (c : Choices E) (e : E)
+    (b p : Nat) (tr1 tr2 : List Ev)
+    (hs : (.start b :: (tr2 ++ tr1)) <:+ (Run.build g a c e).1.trace) (hl : Ev.load ∉ tr2)
+    (hfail : stOf tr1 p = .failed) (ha : Anc g b p) : False := by
+  have ok := okTrace_suffix (Run.build_tinv gok a c e).ok hs
+  have hd := (start_after_all_deps ok ha).1
+  have hf := finished_monotone (okTrace_cons.mp ok).2 hl p .failed (Or.inr rfl) hfail
+  rw [hf] at hd; cases hd
+
+theorem failure_contained_reloaded {E : Type} {g : Graph} (gok : GraphOK g) (a : Run.Args) (c : Choices E)
+    (e : E) (n0 b p : Nat) (tr1 tr2 : List Ev)
+    (hs : (.start b :: (tr2 ++ tr1)) <:+ (Run.buildReloaded g a c e n0).1.trace) (hl : Ev.load ∉ tr2)
+    (hfail : stOf tr1 p = .failed) (ha : Anc g b p) : False := by
+  have ok := okTrace_suffix (Run.buildReloaded_tinv gok a c e n0).ok hs
+  have hd := (start_after_all_deps ok ha).1
+  have hf := finished_monotone (okTrace_cons.mp ok).2 hl p .failed (Or.inr rfl) hfail
+  rw [hf] at hd; cases hd
+
+/-- A command that is reported finished was running; a failed one never becomes anything else
+    (`legal`: nothing leaves `Failed`). -/
+theorem failed_is_final {E : Type} {g : Graph} (gok : GraphOK g) (a : Run.Args) (c : Choices E) (e : E)
+    (tr1 tr2 : List Ev) (hs : (tr2 ++ tr1) <:+ (Run.build g a c e).1.trace) (hl : Ev.load ∉ tr2)
+    (b : Nat) (hb : stOf tr1 b = .failed) : stOf (tr2 ++ tr1) b = .failed :=
+  finished_monotone (okTrace_suffix (Run.build_tinv gok a c e).ok hs) hl b .failed (Or.inr rfl) hb
+
+/-- Non-vacuity: in the example where the first command fails, the dependent step never starts
+    and the invocation reports failure. -/
+example : startedSince (Run.build Ex.g0 Ex.a1 Ex.c1 ()).1.trace 1 = false ∧
+    stOf (Run.build Ex.g0 Ex.a1 Ex.c1 ()).1.trace 0 = .failed ∧
+    (Run.build Ex.g0 Ex.a1 Ex.c1 ()).2.2 = .failed := by decide
+/-- With the default budget (`-k 1`) the first failure ends the invocation at once. -/
+example : (Run.build Ex.g0 Ex.a0 Ex.c1 ()).2.2 = .failed ∧
+    startedSince (Run.build Ex.g0 Ex.a0 Ex.c1 ()).1.trace 1 = false := by decide
 
 end N2V.C05
